@@ -33,7 +33,9 @@ Explain(ev) ==
     \/ ev.e = "progress" /\ (IF ev.skipped THEN UNCHANGED vars ELSE Progress(ev.crc, ev.cons))
 
 \* Diagnosis of a rejected event (only names the violated rule for the signature; the verdict is ENABLED Explain)
-Straddles(a, n) == \E r \in Regions : (a..(a + n - 1)) \cap (r[1]..(r[2] - 1)) # {}
+\* "straddles": the pages the range lies in reach into a white-listed region (page granularity), else "disjoint"
+PageStart(x) == x - (x % PageSize)
+Straddles(a, n) == \E r \in Regions : (PageStart(a)..(PageStart(a + n - 1) + PageSize - 1)) \cap (r[1]..(r[2] - 1)) # {}
 RECURSIVE FirstBad(_, _, _, _, _, _, _)
 FirstBad(j, fx, i, mode, base, next, bytes) ==
     IF i > Len(fx) THEN <<>>
